@@ -49,8 +49,11 @@ CHECKS["C02"] = dict(
           "labels distinct, every label observed; group positions are ascending, cover exactly the rows with a valid code and never a null-key row; the "
           "mixed-radix combination of several keys is injective on bounded digits and yields the null code iff ANY component is null. "
           "The same relations are evaluated directly on the real output of factorize_1d / factorize_2d / monotonic_factorization / GroupBy (plain, "
-          "chunk-wise with scaled threshold, monotonic and partially monotonic, pre-chunked arrow) and the first-appearance routes are compared with the model."),
-    note="pd.factorize / get_indexer / drop_duplicates are assumed (exercised, not proved); the monotonic and chunk-pointer routes are modelled and tied by correspondence, their Lean theorems cover the first-appearance core and the counting-sort view; arrow bit-packed booleans are excluded (the library's own to_arrow rejects them).",
+          "chunk-wise with scaled threshold, monotonic and partially monotonic, pre-chunked arrow) and the first-appearance routes are compared with the model. "
+          "Sorted-prefix route: monotonic_factorization_faithful (Lemmas/Monotonic.lean, loop invariant of the run detection): for every input the cut-off is "
+          "the end of the longest null-free non-decreasing prefix, one code per prefix row, labels strictly increasing, label at a row's code has the row's "
+          "key; monotonic_codes_eq_iff; monotonic_null_first - for any comparison functions that agree with the key order on non-null elements."),
+    note="pd.factorize / get_indexer / drop_duplicates are assumed (exercised, not proved); the chunk-pointer route is modelled (C03 chunk_route_eq_global) and tied by correspondence.",
     technique="Lean 4 proof (list induction; mixed-radix injectivity) + relations evaluated on the implementation's output for every route + model correspondence",
     design="§7 C02",
 )
@@ -114,7 +117,7 @@ CHECKS["C05"] = dict(
           "operations cum_mask_eq_filter and rolling_sum/mean_mask_eq_filter: at every selected row the masked run equals the run on the filtered data at the "
           "row's rank. Metamorphic correspondence on the public API for every maskable operation (reductions incl. var/std/median, cumulative, rolling, "
           "shift/diff, EMA plain and timed) plus overwrite-unselected-values test."),
-    note="Rolling min/max, shift/diff and the EMA kernels are covered by the metamorphic run only; the public pipeline above the kernels (observed filter under a mask) by correspondence. Open findings: untimed EMA treats masked rows as null values (pinned by tests); median/apply with an empty selection raises.",
+    note="Rolling min/max, shift/diff and the EMA kernels are covered by the metamorphic run only; the public pipeline above the kernels (observed filter under a mask) by correspondence. Open finding: untimed EMA treats masked rows as null values (pinned by tests).",
     technique="Lean 4 proof (corollaries of the kernel contract and of the prefix theorems; list rank/filter lemma) + metamorphic differential testing of masked vs filtered executions",
     design="§7 C05",
 )
